@@ -765,6 +765,13 @@ func ruleC15ScanFilter(c *Ctx) {
 						return true
 					}
 				}
+				// the test handed to a helper of the package ("is this row orphaned?"): answered "no" only where
+				// one of the three holds (decided on the helper's own body)
+				if !f.Pol && !call.Call.IsInvoke() {
+					if g := call.Call.StaticCallee(); g != nil && g.Pkg == fn.Pkg && len(g.Blocks) > 0 && presenceHelperFalseImplies(g) {
+						return true
+					}
+				}
 				switch {
 				case invokeNamed(call, "IsChildStore") && !f.Pol:
 					return true
@@ -2722,6 +2729,94 @@ func skipPredicateOK(fn *ssa.Function) bool {
 			if reached {
 				return false
 			}
+		}
+	}
+	return true
+}
+
+// presenceHelperFalseImplies: g answers a bool; wherever it answers false, one of "not a child store", "child
+// data present", "extended store" holds (decided over g's returns, phi edges and branch facts).
+func presenceHelperFalseImplies(g *ssa.Function) bool {
+	if g.Signature.Results().Len() != 1 || !types.Identical(g.Signature.Results().At(0).Type(), types.Typ[types.Bool]) {
+		return false
+	}
+	fi := ComputeFacts(g)
+	goodFact := func(f Fact) bool {
+		call, ok := f.V.(*ssa.Call)
+		if !ok || f.Kind != "true" {
+			return false
+		}
+		switch {
+		case invokeNamed(call, "IsChildStore") && !f.Pol:
+			return true
+		case invokeNamed(call, "IsEntityPresent") && f.Pol:
+			return true
+		case invokeNamed(call, "IsExtended") && f.Pol:
+			return true
+		}
+		return false
+	}
+	holdsAt := func(b *ssa.BasicBlock) bool {
+		for _, call := range callsIn(g) {
+			cv, ok := call.(*ssa.Call)
+			if !ok {
+				continue
+			}
+			for _, pol := range []bool{true, false} {
+				f := Fact{"true", cv, pol}
+				if goodFact(f) && fi.Holds(b, f) {
+					return true
+				}
+			}
+		}
+		return false
+	}
+	var check func(v ssa.Value, blk *ssa.BasicBlock, d int) bool
+	check = func(v ssa.Value, blk *ssa.BasicBlock, d int) bool {
+		if d > 6 {
+			return false
+		}
+		switch x := v.(type) {
+		case *ssa.Const:
+			if x.Value != nil && constant.BoolVal(x.Value) {
+				return true
+			}
+			return holdsAt(blk)
+		case *ssa.Phi:
+			for i, e := range x.Edges {
+				pred := x.Block().Preds[i]
+				if k, isK := e.(*ssa.Const); isK && k.Value != nil && !constant.BoolVal(k.Value) {
+					ok := holdsAt(pred)
+					for f := range fi.edgeFacts(pred, x.Block()) {
+						if goodFact(f) {
+							ok = true
+						}
+					}
+					if !ok {
+						return false
+					}
+					continue
+				}
+				if !check(e, pred, d+1) {
+					return false
+				}
+			}
+			return true
+		case *ssa.UnOp:
+			if x.Op.String() == "!" {
+				if call, isCall := x.X.(*ssa.Call); isCall {
+					return goodFact(Fact{"true", call, true}) || holdsAt(blk)
+				}
+			}
+			return holdsAt(blk)
+		case *ssa.Call:
+			return goodFact(Fact{"true", x, false}) || holdsAt(blk)
+		}
+		return false
+	}
+	for _, r := range returnsOf(g) {
+		if len(r.Results) != 1 || !check(r.Results[0], r.Block(), 0) {
+			return false
 		}
 	}
 	return true
